@@ -342,15 +342,15 @@ def _function_index(lines):
 
 # ------------------------------------------------------------------------------------------------
 # Engine X
-def build_bx():
+def build_bx(binary='bx'):
     d = os.path.join(VERIF, 'bx')
     shutil.copyfile(os.path.join(REPO, 'Cargo.lock'), os.path.join(d, 'Cargo.lock'))
     tgt = os.path.join(BUILD, 'bx-target')
-    rc, out, err, wall, to = _sh(['cargo', 'build', '--release', '--offline', '--quiet'], 1200, cwd=d,
+    rc, out, err, wall, to = _sh(['cargo', 'build', '--release', '--offline', '--quiet', '--bin', binary], 1800, cwd=d,
                                  env={'CARGO_TARGET_DIR': tgt})
     if rc != 0:
         return None, err[-3000:]
-    return os.path.join(tgt, 'release', 'bx'), ''
+    return os.path.join(tgt, 'release', binary), ''
 
 
 def _tree_hash(extra):
@@ -502,11 +502,11 @@ def run_bx_types(name, depth):
     """bounded stand-in for the type-name pipeline (C17)"""
     r = UnitResult(name, 'bx (native execution of the type-name pipeline over a grammar of types)')
     t0 = time.time()
-    exe, err = build_bx()
+    exe, err = build_bx('bx_types')
     if exe is None:
-        r.status, r.reason = INCONCLUSIVE, 'bx does not build against the current tree: %s' % err
+        r.status, r.reason = INCONCLUSIVE, 'bx_types does not build against the current tree: %s' % err
         return r
-    cmd = [exe, 'types', '--depth', str(depth)]
+    cmd = [exe, '--depth', str(depth)]
     r.cmd = ' '.join(cmd)
     rc, out, err, wall, to = _sh(cmd, 1800)
     r.wall_s = time.time() - t0
